@@ -121,9 +121,10 @@ def run(rep, tier, seed):
     specs = []
     for name, body in bs:
         src = f"(fn* [p0 p1 p2] {body})"
-        specs.append(c01.mk_spec("C02", name + "/opts=default", src, (False, True, True), 30 if quick else 90, check_trace=True))
+        ct = "multiset" if name.split("/")[0] in ("map", "set") else True
+        specs.append(c01.mk_spec("C02", name + "/opts=default", src, (False, True, True), 30 if quick else 90, check_trace=ct))
         if not quick:
-            specs.append(c01.mk_spec("C02", name + "/opts=no-inline", src, (False, False, False), 90, check_trace=True))
+            specs.append(c01.mk_spec("C02", name + "/opts=no-inline", src, (False, False, False), 90, check_trace=ct))
     rep.extra["programs"] = len(specs)
     rep.bounds = {"programs": f"{len(ENCLOSING)} enclosing forms x argument position <= 3 x {len(ARG_KINDS) - 1} compound sibling kinds + "
                               f"{len(EXTRA)} extra programs = {len(bodies())}; this run {len(specs)}",
